@@ -148,10 +148,18 @@ def userff_case(draw):
             r=[draw(st.integers(0, 25000)) / 10000.0 for _ in atoms],
             typ=draw(st.sampled_from(["", "CT", "H"])),
             blank=draw(st.booleans()), comment=draw(st.booleans()),
+            # equivalent spellings of the same residue rule (the names are regular expressions)
+            spell=draw(st.sampled_from([0, 0, 0, 1, 2, 3, 4])),
         ))  # fmt: skip
     his_group = draw(st.booleans())
     return dict(part="userff", residues=res, galias=galias, his_group=his_group,
                 order=draw(st.permutations(list(range(len(res))))), tabs=draw(st.booleans()))  # fmt: skip
+
+
+def _spell(canon, k):
+    """Regular expressions that match exactly the canonical residue name `canon` (documented: the
+    section name is a regular expression, `$` is appended)."""
+    return [canon, f"({canon})", f"QQQ|{canon}", f"(?:{canon}|QQQ)", f"{canon[:-1]}[{canon[-1]}]"][k]
 
 
 def build_pair(case):
@@ -208,14 +216,17 @@ def build_pair(case):
             dat.append("# comment row 1.0 2.0")
         specific = {a: n for a, n in atom_native.items() if n != a and a not in galias and a not in skipped}
         secs = []
+        cname = _spell(canon, rd.get("spell", 0))
+        if rd.get("spell", 0):
+            fired.add("spelled-regex")
         in_group = case["his_group"] and canon in his
         if native != canon and not in_group and rows:
-            secs.append(f"  <residue>\n    <name>{canon}</name>\n    <useresname>{native}</useresname>\n  </residue>")
+            secs.append(f"  <residue>\n    <name>{cname}</name>\n    <useresname>{native}</useresname>\n  </residue>")
         if patch_rows:
-            secs.append(f"  <residue>\n    <name>{canon}</name>\n    <useresname>{pnative}</useresname>\n  </residue>")
+            secs.append(f"  <residue>\n    <name>{cname}</name>\n    <useresname>{pnative}</useresname>\n  </residue>")
             fired.add("cumulative")
         if specific:
-            sec = ["  <residue>", f"    <name>{canon}</name>"]
+            sec = ["  <residue>", f"    <name>{cname}</name>"]
             for a, n in specific.items():
                 sec += ["    <atom>", f"      <name>{a}</name>", f"      <useatomname>{n}</useatomname>", "    </atom>"]
                 fired.add("alias")
